@@ -633,6 +633,13 @@ func runServerScenario(skipVerify bool, secretSpec string, cmds []string, w *os.
 		case 'Z':
 			// release everything in a fixed order and require that every call returns
 			stuck := ""
+			// (once something is found stuck the remaining waits are short: the verdict is settled)
+			zwait := func() time.Duration {
+				if stuck != "" {
+					return 300 * time.Millisecond
+				}
+				return labWait
+			}
 			radius.VerifSetHook(func(p string) {})
 			for j, st := range downState {
 				if st == "parked" {
@@ -693,19 +700,19 @@ func runServerScenario(skipVerify bool, secretSpec string, cmds []string, w *os.
 				// wait for Close by Shutdown, then release the read error to every reader
 				select {
 				case <-l.conns[cn].closed:
-				case <-time.After(labWait):
+				case <-time.After(zwait()):
 					stuck += fmt.Sprintf(",listener%d-not-closed", cn)
 					continue
 				}
 				for range rs {
 					select {
 					case l.conns[cn].errGo <- struct{}{}:
-					case <-time.After(labWait):
+					case <-time.After(zwait()):
 						stuck += fmt.Sprintf(",reader-on-%d-not-reading", cn)
 					}
 				}
 				for _, i := range rs {
-					if r, ok := waitStr(l.serveRet[i], labWait); ok {
+					if r, ok := waitStr(l.serveRet[i], zwait()); ok {
 						serveReturned(i, r)
 						if r != "shutdown" {
 							stuck += fmt.Sprintf(",serve%d=%s", i, r)
@@ -715,12 +722,12 @@ func runServerScenario(skipVerify bool, secretSpec string, cmds []string, w *os.
 					}
 				}
 			}
-			if r, ok := waitStr(zret, 2*labWait); !ok || r != "nil" {
+			if r, ok := waitStr(zret, 2*zwait()); !ok || r != "nil" {
 				stuck += ",final-shutdown=" + r
 			}
 			for j, st := range downState {
 				if st == "waiting" {
-					if r, ok := waitStr(l.downRet[j], labWait); !ok {
+					if r, ok := waitStr(l.downRet[j], zwait()); !ok {
 						stuck += fmt.Sprintf(",shutdown%d", j)
 					} else if strings.HasPrefix(r, "PANIC") {
 						stuck += fmt.Sprintf(",shutdown%d=%s", j, r)
